@@ -36,14 +36,15 @@ Emit == (hist # <<>>) => PrintT(ToJson(hist))
 -----------------------------------------------------------------------------
 All == UNION FocusSets
 AllPts == Pts(All)
-RandTree == LET n == RandomElement(3..(Cardinality(AllPts) \div 2))
-            IN  [q \in RandomSubset(n, AllPts) |-> ValueAt(q)]
+\* (parameters: TLC evaluates a definition without parameters once and for all)
+RandTree(i, k) == LET n == RandomElement(3..((2 * Cardinality(AllPts)) \div 3))
+                  IN  [q \in RandomSubset(n, AllPts) |-> ValueAt(q)]
 CfgJson(c) == LET ks == SetToSeq(Kinds) IN [n \in DOMAIN ks |-> [k |-> ks[n], tree |-> TreeJson(c[ks[n]])]]
 
 HInit ==
     /\ ix \in 1..NInit
     /\ up = TRUE
-    /\ cfg = [k \in Kinds |-> RandTree]
+    /\ cfg = [k \in Kinds |-> RandTree(ix, k)]
     /\ dflt = [k \in Kinds |-> "d0"]
     /\ style = [s \in Services |-> IF s \in All THEN RandomElement(StyleChoices(s)) ELSE ""]
     /\ got = NoFn
